@@ -350,12 +350,46 @@ pub enum Datum {
     Oct(u16),
     Bin(u8),
     Utf8(String),
+    /// an error value written as response data (`code,"message[;extended]"`)
+    Err(ErrSpec),
+    /// arrayvec::ArrayVec<i32, 8> list
+    ArrList(Vec<i32>),
+    /// Vec<u16> list
+    VecList(Vec<u16>),
+}
+
+#[derive(Clone, Copy, Debug, PartialEq, Eq, Serialize, Deserialize, Default)]
+pub enum HwKind {
+    /// EventRegister::set_condition(value)
+    #[default]
+    Set,
+    /// EventRegister::set_condition_bits(value)
+    SetBits,
+    /// EventRegister::clear_condition_bits(value)
+    ClearBits,
+}
+
+fn hw_is_set(k: &HwKind) -> bool {
+    *k == HwKind::Set
 }
 
 #[derive(Clone, Copy, Debug, PartialEq, Eq, Serialize, Deserialize)]
 pub struct HwOp {
     pub reg: Reg,
     pub value: u16,
+    #[serde(default, skip_serializing_if = "hw_is_set")]
+    pub op: HwKind,
+}
+
+impl HwOp {
+    /// the condition register value this operation asks for, given the current one
+    pub fn target(&self, current: u16) -> u16 {
+        match self.op {
+            HwKind::Set => self.value,
+            HwKind::SetBits => current | self.value,
+            HwKind::ClearBits => current & !self.value,
+        }
+    }
 }
 
 #[derive(Clone, Debug, PartialEq, Serialize, Deserialize, Default)]
@@ -490,6 +524,13 @@ pub struct Config {
     #[serde(default = "one")]
     pub controllers: u8,
     pub tree: TreeDesc,
+    /// plain IEEE 488.2 wiring: `stb()` is the trait's default method instead of `scpi_stb()`
+    #[serde(default, skip_serializing_if = "is_false")]
+    pub plain488: bool,
+}
+
+fn is_false(b: &bool) -> bool {
+    !*b
 }
 
 fn one() -> u8 {
